@@ -152,9 +152,66 @@ u_buf(uint64_t idx, void *arg)
     }
 }
 
+/* long buffers: lengths beyond 255, 65535 and 2^16 words, odd and even addresses */
+static void
+u_longbuf(uint64_t idx, void *arg)
+{
+    (void)arg;
+    vh_rng r;
+    vh_unit_rng(&r, "long", idx);
+    static const size_t lens[] = { 255, 256, 257, 4097, 65535, 65536, 65537, 70001, 131072, 200003 };
+    size_t n = lens[idx % 10];
+    unsigned align = (unsigned)(idx / 10) % 2;
+    vh_arena_reset();
+    uint8_t *raw = vh_arena(n + 1);
+    uint8_t *b = raw + align;
+    if (align == 0)
+        vh_poison(raw + n, 1);
+    for (size_t i = 0; i < n; i++)
+        b[i] = (uint8_t)vh_rand(&r);
+    uint16_t init = (uint16_t)vh_rand(&r);
+    VH_CASE4(idx, n, align, init);
+    uint16_t exp = ref_crc(init, b, n);
+    uint16_t got = ufw_crc16_arc(init, b, n);
+    if (got != exp)
+        vh_fail("buffer", "api=ufw_crc16_arc size=long", "n=%zu align=%u init=%04x got=%04x exp=%04x", n, align, init, got, exp);
+    static const size_t cuts[] = { 1, 2, 3, 255, 256, 257, 4095, 4096, 65535, 65536, 65537 };
+    for (size_t ci = 0; ci < 11; ci++) {
+        size_t cut = cuts[ci];
+        if (cut > n)
+            continue;
+        uint16_t a = ufw_crc16_arc(init, b, cut);
+        uint16_t c = ufw_crc16_arc(a, b + cut, n - cut);
+        if (c != exp)
+            vh_fail("split", "api=ufw_crc16_arc size=long", "n=%zu cut=%zu got=%04x exp=%04x", n, cut, c, exp);
+        a = ufw_crc16_arc(init, b, n - cut);
+        c = ufw_crc16_arc(a, b + n - cut, cut);
+        if (c != exp)
+            vh_fail("split", "api=ufw_crc16_arc size=long", "n=%zu cut=%zu from the end got=%04x exp=%04x", n, cut, c, exp);
+    }
+    if (align == 0 && n % 2 == 0) {
+        uint16_t w = ufw_crc16_arc_u16(init, (const uint16_t *)(const void *)b, n / 2);
+        if (w != exp)
+            vh_fail("word", "api=ufw_crc16_arc_u16 size=long", "words=%zu got=%04x exp=%04x", n / 2, w, exp);
+    }
+    if (align == 0) {
+        /* word variant on its own exact block for odd octet counts too */
+        size_t words = n / 2;
+        uint16_t *wb = vh_arena(words * 2);
+        memcpy(wb, b, words * 2);
+        uint16_t w = ufw_crc16_arc_u16(init, wb, words);
+        if (w != ref_crc(init, b, words * 2))
+            vh_fail("word", "api=ufw_crc16_arc_u16 size=long", "words=%zu got=%04x", words, w);
+    }
+    VH_COUNT("long buffers compared");
+    vh_sig(0x5000000u ^ idx);
+}
+
 void
 harness_run(void)
 {
+    for (uint64_t i = 0; i < 20; i++)
+        vh_unit("long", i, u_longbuf, NULL);
     for (uint64_t i = 0; i < 256; i++)
         vh_unit("step", i, u_step, NULL);
     if (vh_tier) {
@@ -177,4 +234,5 @@ harness_run(void)
     vh_require("split positions compared");
     vh_require("word buffers compared");
     vh_require("ufw_buffer_crc16_arc compared");
+    vh_require("long buffers compared");
 }
